@@ -66,6 +66,8 @@ type SimP4 struct {
 	WriteLog []P4WriteRec
 	Invalid  []P4Invalid
 	KeyConflicts []P4KeyConflict
+	// NeedReconnect: set by Restart; the channel reads IDLE until it is used again
+	NeedReconnect bool
 	streams  []*p4Stream
 	Reads    int
 
@@ -545,6 +547,9 @@ func (s *SimP4) write(reqBytes []byte, inc int, failThis bool) (st []byte) {
 func (s *SimP4) submitWrite(reqBytes []byte, inc int) *rpcCall {
 	sim := s.w.Sim
 	s.Writes++
+	if s.State == connectivity.Ready {
+		s.NeedReconnect = false
+	}
 	c := &rpcCall{id: s.Writes, inc: inc}
 	f := &s.Faults
 	finish := func(d time.Duration, fn func()) {
@@ -667,6 +672,7 @@ func (s *SimP4) openStream(inc int) (*p4Stream, codes.Code) {
 	}
 	st := &p4Stream{inc: inc}
 	s.streams = append(s.streams, st)
+	s.NeedReconnect = false
 	return st, codes.OK
 }
 
@@ -715,6 +721,9 @@ func (s *SimP4) Restart(keep bool) {
 	if !keep {
 		s.resetState()
 	}
+	// the client's channel lost its transport: it reads IDLE (not READY) until a
+	// new stream or RPC makes it connect again
+	s.NeedReconnect = true
 	s.w.Sim.Logf("p4 restart keep=%v", keep)
 	s.w.Sim.MarkDirty()
 }
